@@ -59,7 +59,7 @@ CallNew == \E h \in Handles, kind \in KindsUsed, outs \in OutsSet, name \in Name
 CallSetContext == \E h \in Live(x), bs \in BSs, seed \in Seeds : LET c == [Call("set_context", h) EXCEPT !.bs = bs, !.seed = seed] IN Do(c, SetContext(x, c))
 CallAddBatch == \E h \in Live(x), i \in 0..MaxI, ns \in NsSet, v \in Vals : LET c == [Call("add_batch", h) EXCEPT !.i = i, !.ns = ns, !.v = v] IN Do(c, AddBatch(x, c))
 CallRemoveBatch == \E h \in Live(x), i \in 0..MaxI : LET c == [Call("remove_batch", h) EXCEPT !.i = i] IN Do(c, RemoveBatch(x, c))
-CallGetBatch == \E h \in Live(x), i \in 0..MaxI : LET c == [Call("get_batch", h) EXCEPT !.i = i] IN Do(c, GetBatch(x, c))
+CallGetBatch == \E h \in Live(x), i \in 0..MaxI, ns \in NsSet \cup {<<>>} : LET c == [Call("get_batch", h) EXCEPT !.i = i, !.ns = ns] IN Do(c, GetBatch(x, c))
 CallAddStore == \E h \in Live(x), node \in Nodes, what \in Whats : LET c == [Call("add_store", h) EXCEPT !.node = node, !.what = what] IN Do(c, AddStore(x, c))
 CallRemoveStore == \E h \in Live(x), node \in Nodes : LET c == [Call("remove_store", h) EXCEPT !.node = node] IN Do(c, RemoveStore(x, c))
 CallClear == \E h \in Live(x) : LET c == Call("clear", h) IN Do(c, Clear(x, c))
